@@ -6,7 +6,7 @@
 import Cel.Model.Conv
 import Cel.Lemmas.Time
 namespace Cel.Conv
-open Cel.Time (Dy rnd natText intText digitsVal isDigit Ts)
+open Cel.Time (Dy rnd natText intText digitsVal isDigit Ts natText_digits natText_ne_nil digitsVal_natText isDigit_iff civilOfLoc civilOfLoc_spec locOfCivil maxLoc)
 
 /-! ### UTF-8 -/
 theorem isCont_iff (b : Nat) : isCont b = true ↔ 0x80 ≤ b ∧ b < 0xC0 := by simp [isCont]
@@ -158,4 +158,279 @@ theorem decode_genuine (b : Bytes) : ∀ s, utf8Decode b = .ok s →
   all_goals (intro s h; unfold utf8Decode at h; simp only [*, if_true, if_false, reduceCtorEq] at h)
   all_goals (try (split at h <;> simp only [*, if_true, if_false, reduceCtorEq] at h))
 
+/-! ### Python `int(text)` on decimal text -/
+theorem isSpace_false_of (c : Nat) (h : (48 ≤ c ∧ c ≤ 57) ∨ c = 45) : isSpace c = false := by
+  simp [isSpace]; omega
+
+theorem dropSpaces_id (s : Text) (h : ∀ c ∈ s, isSpace c = false) : dropSpaces s = s := by
+  cases s with
+  | nil => rfl
+  | cons c r => simp [dropSpaces, h c (by simp)]
+
+theorem strip_id (s : Text) (h : ∀ c ∈ s, isSpace c = false) : strip s = s := by
+  unfold strip
+  rw [dropSpaces_id s h, dropSpaces_id s.reverse (fun c hc => h c (List.mem_reverse.mp hc)), List.reverse_reverse]
+
+theorem digitsUnderscore_digits (ds : List Nat) (h : ∀ c ∈ ds, isDigit c = true) :
+    ∀ (b : Bool) (acc : Nat), (ds ≠ [] ∨ b = true) →
+      digitsUnderscore 10 ds b acc = some (ds.foldl (fun a c => a * 10 + (c - 48)) acc) := by
+  induction ds with
+  | nil => intro b acc hb; simp at hb; simp [digitsUnderscore, hb]
+  | cons c r ih =>
+    intro b acc _
+    have hc := (isDigit_iff c).mp (h c (by simp))
+    have h95 : c ≠ 95 := by omega
+    have hv : digitVal c = some (c - 48) := by unfold digitVal; rw [if_pos hc]
+    have hlt : c - 48 < 10 := by omega
+    unfold digitsUnderscore
+    rw [if_neg h95, hv]
+    simp only [hlt, if_true]
+    rw [ih (fun x hx => h x (by simp [hx])) true _ (Or.inr rfl)]
+    rfl
+
+theorem pyInt_natText (n : Nat) : pyInt 10 (natText n) = .ok (n : Int) := by
+  have hd := natText_digits n
+  have hsp : ∀ c ∈ natText n, isSpace c = false :=
+    fun c hc => isSpace_false_of c (Or.inl ((isDigit_iff c).mp (hd c hc)))
+  obtain ⟨c0, r0, hc0⟩ : ∃ c r, natText n = c :: r := by
+    cases hh : natText n with
+    | nil => exact absurd hh (natText_ne_nil n)
+    | cons c r => exact ⟨c, r, rfl⟩
+  have hc0d := (isDigit_iff c0).mp (hd c0 (by rw [hc0]; simp))
+  have hv := digitsUnderscore_digits (natText n) hd false 0 (Or.inl (natText_ne_nil n))
+  have hdv : (natText n).foldl (fun a c => a * 10 + (c - 48)) 0 = n := digitsVal_natText n
+  unfold pyInt
+  rw [strip_id _ hsp]
+  rw [hc0] at hv hdv ⊢
+  have e1 : ¬ ((c0 :: r0).head? = some 43 ∨ (c0 :: r0).head? = some 45) := by simp; omega
+  have e2 : decide ((c0 :: r0).head? = some 45) = false := by simp; omega
+  simp only [if_neg e1, e2]
+  simp [hv, hdv]
+
+theorem pyInt_neg_natText (n : Nat) : pyInt 10 (45 :: natText n) = .ok (-(n : Int)) := by
+  have hd := natText_digits n
+  have hsp : ∀ c ∈ (45 :: natText n), isSpace c = false := by
+    intro c hc
+    rcases List.mem_cons.mp hc with h | h
+    · exact isSpace_false_of c (Or.inr h)
+    · exact isSpace_false_of c (Or.inl ((isDigit_iff c).mp (hd c h)))
+  have hv := digitsUnderscore_digits (natText n) hd false 0 (Or.inl (natText_ne_nil n))
+  have hdv : (natText n).foldl (fun a c => a * 10 + (c - 48)) 0 = n := digitsVal_natText n
+  have hne : (natText n).isEmpty = false := by
+    cases hh : natText n with
+    | nil => exact absurd hh (natText_ne_nil n)
+    | cons c r => rfl
+  unfold pyInt
+  rw [strip_id _ hsp]
+  simp [hv, hdv, hne]
+
+/-- neither `0x` nor `-0x` prefix: the text consists of digits and possibly a leading minus -/
+theorem no_hex_prefix (s : Text) (h : ∀ c ∈ s, (48 ≤ c ∧ c ≤ 57) ∨ c = 45) :
+    ¬ (s.take 2 = [48, 120] ∨ s.take 2 = [48, 88]) ∧ ¬ (s.take 3 = [45, 48, 120] ∨ s.take 3 = [45, 48, 88]) := by
+  have k : ∀ (m x : Nat) (l : List Nat), s.take m = l → x ∈ l → (48 ≤ x ∧ x ≤ 57) ∨ x = 45 := by
+    intro m x l e hx
+    exact h x (List.mem_of_mem_take (by rw [e]; exact hx))
+  refine ⟨?_, ?_⟩
+  · rintro (e | e)
+    · have := k 2 120 _ e (by simp); omega
+    · have := k 2 88 _ e (by simp); omega
+  · rintro (e | e)
+    · have := k 3 120 _ e (by simp); omega
+    · have := k 3 88 _ e (by simp); omega
+
+theorem intText_chars (i : Int) : ∀ c ∈ intText i, (48 ≤ c ∧ c ≤ 57) ∨ c = 45 := by
+  intro c hc
+  unfold intText at hc
+  split at hc
+  · rcases List.mem_cons.mp hc with h | h
+    · exact Or.inr h
+    · exact Or.inl ((isDigit_iff c).mp (natText_digits _ c h))
+  · exact Or.inl ((isDigit_iff c).mp (natText_digits _ c hc))
+
+theorem pyInt_intText (i : Int) : pyInt 10 (intText i) = .ok i := by
+  unfold intText
+  split
+  · rw [pyInt_neg_natText]; congr 1; omega
+  · rw [pyInt_natText]; congr 1; omega
+
+/-! ### fixed-width decimal fields -/
+theorem num2_pad2 (n : Nat) (h : n < 100) : num2 (48 + n / 10 % 10) (48 + n % 10) = some n := by
+  have d1 : isDigit (48 + n / 10 % 10) = true := by rw [isDigit_iff]; omega
+  have d2 : isDigit (48 + n % 10) = true := by rw [isDigit_iff]; omega
+  unfold num2
+  simp only [d1, d2, Bool.and_self, if_true]
+  congr 1; omega
+
+theorem num2_pad4_hi (y : Nat) (h : y < 10000) : num2 (48 + y / 1000 % 10) (48 + y / 100 % 10) = some (y / 100) := by
+  have d1 : isDigit (48 + y / 1000 % 10) = true := by rw [isDigit_iff]; omega
+  have d2 : isDigit (48 + y / 100 % 10) = true := by rw [isDigit_iff]; omega
+  unfold num2
+  simp only [d1, d2, Bool.and_self, if_true]
+  congr 1; omega
+
+theorem num2_pad4_lo (y : Nat) : num2 (48 + y / 10 % 10) (48 + y % 10) = some (y % 100) := by
+  have d1 : isDigit (48 + y / 10 % 10) = true := by rw [isDigit_iff]; omega
+  have d2 : isDigit (48 + y % 10) = true := by rw [isDigit_iff]; omega
+  unfold num2
+  simp only [d1, d2, Bool.and_self, if_true]
+  congr 1; omega
+
+/-- the zone designator that `__str__` prints is read back as the same offset -/
+theorem parseZone_zoneText (off : Int) (hm : off % 60000000 = 0)
+    (hr : -86400000000 < off ∧ off < 86400000000) : parseZone (zoneText off) = some (.ok off) := by
+  unfold zoneText
+  simp only
+  by_cases h0 : off.natAbs / 60000000 = 0
+  · have : off = 0 := by omega
+    subst this; simp [parseZone]
+  · rw [if_neg h0]
+    have hlt : off.natAbs / 60000000 < 1440 := by omega
+    have hh : off.natAbs / 60000000 / 60 < 100 := by omega
+    have hmm : off.natAbs / 60000000 % 60 < 100 := by omega
+    have n1 := num2_pad2 _ hh
+    have n2 := num2_pad2 _ hmm
+    have hsum : off.natAbs / 60000000 / 60 * 60 + off.natAbs / 60000000 % 60 = off.natAbs / 60000000 := by omega
+    by_cases hneg : off < 0
+    · simp only [hneg, if_true, pad2, List.cons_append, List.nil_append, parseZone]
+      simp only [n1, n2, Option.map, hsum, hlt, if_true]
+      simp
+      omega
+    · simp only [hneg, if_false, pad2, List.cons_append, List.nil_append, parseZone]
+      simp only [n1, n2, Option.map, hsum, hlt, if_true]
+      simp
+      omega
+
+/-! ### timestamp text -/
+theorem zoneText_head (off : Int) : ∃ c r, zoneText off = c :: r ∧ c ≠ 46 ∧ c ≠ 44 := by
+  unfold zoneText
+  simp only
+  split
+  · exact ⟨90, [], rfl, by decide, by decide⟩
+  · split
+    · exact ⟨45, _, rfl, by decide, by decide⟩
+    · exact ⟨43, _, rfl, by decide, by decide⟩
+
+/-- `timestamp(string(t)) == t` for every whole-second timestamp of years 1..9999 with a
+whole-minute offset -/
+theorem tsOfText_stringOfTs (t : Ts) (h0 : 0 ≤ t.loc) (h1 : t.loc ≤ maxLoc) (hs : t.loc % 1000000 = 0)
+    (hm : t.off % 60000000 = 0) (hr : -86400000000 < t.off ∧ t.off < 86400000000) :
+    tsOfText (stringOfTs t) = some (.ok t) := by
+  obtain ⟨hv, hh, hmi, hss, hus, hloc⟩ := civilOfLoc_spec t.loc h0
+  have hy : (civilOfLoc t.loc).year ≤ 9999 := (Cel.Time.locOk_iff_year t.loc h0).mp h1
+  have hmicro : (civilOfLoc t.loc).micro = 0 := by
+    have : (civilOfLoc t.loc).micro = ((t.loc % Cel.Time.usPerDay).toNat) % 1000000 := rfl
+    rw [this]; simp only [Cel.Time.usPerDay]; omega
+  obtain ⟨hy1, hmo1, hmo12, hd1, hdim⟩ := hv
+  have hd31 : (civilOfLoc t.loc).day < 100 := by
+    have := Cel.Time.dimL_le (Cel.Time.isLeap (civilOfLoc t.loc).year) (civilOfLoc t.loc).month
+    rw [Cel.Time.daysInMonth_eq] at hdim
+    omega
+  obtain ⟨zc, zr, hz, hz46, hz44⟩ := zoneText_head t.off
+  have hpz := parseZone_zoneText t.off hm hr
+  unfold stringOfTs
+  simp only [pad4, pad2, List.cons_append, List.nil_append]
+  unfold tsOfText
+  simp only [num2_pad4_hi _ (by omega : (civilOfLoc t.loc).year < 10000), num2_pad4_lo,
+    num2_pad2 _ (by omega : (civilOfLoc t.loc).month < 100), num2_pad2 _ hd31,
+    num2_pad2 _ (by omega : (civilOfLoc t.loc).hour < 100), num2_pad2 _ (by omega : (civilOfLoc t.loc).minute < 100),
+    num2_pad2 _ (by omega : (civilOfLoc t.loc).second < 100)]
+  rw [hz] at hpz ⊢
+  have hyy : (civilOfLoc t.loc).year / 100 * 100 + (civilOfLoc t.loc).year % 100 = (civilOfLoc t.loc).year := by omega
+  simp only [true_or, if_true, hz46, hz44, or_self, if_false, hpz, hyy]
+  rw [hmicro] at hloc
+  simp [hy1, hmo1, hmo12, hd1, hdim, hh, hmi, hss, hloc]
+
 end Cel.Conv
+
+namespace Cel.Time
+/-! ### binary64 rounding is exact on integers below 2^53 -/
+theorem rne_mul (a d : Nat) (hd : 0 < d) : rne (a * d) d = a := by
+  unfold rne
+  rw [Nat.mul_mod_left, Nat.mul_div_cancel a hd]
+  simp [hd]
+
+theorem bitlen_le (a k : Nat) (h : a < 2 ^ k) : bitlen a ≤ k := by
+  unfold bitlen
+  split
+  · omega
+  · rename_i hne
+    have := (Nat.log2_lt hne).mpr h
+    omega
+
+theorem lt_pow_bitlen (a : Nat) : a < 2 ^ bitlen a := by
+  unfold bitlen
+  split
+  · rename_i h; subst h; simp
+  · exact Nat.lt_log2_self
+
+theorem bitlen_mul_le (a d : Nat) : bitlen (a * d) ≤ bitlen a + bitlen d := by
+  apply bitlen_le
+  rw [Nat.pow_add]
+  exact Nat.mul_lt_mul'' (lt_pow_bitlen a) (lt_pow_bitlen d)
+
+theorem shiftFor_nonneg (a d : Nat) (hd : 0 < d) (h : a < 2 ^ 53) : 0 ≤ shiftFor (a * d) d := by
+  have h1 := bitlen_mul_le a d
+  have h2 := bitlen_le a 53 h
+  unfold shiftFor
+  simp only
+  by_cases h0 : (53 + (bitlen d : Int) - (bitlen (a * d) : Int)) = 0
+  · rw [h0]
+    have : a * d * 2 ^ (0 : Int).toNat / d = a := by
+      simp; rw [Nat.mul_comm, Nat.mul_div_cancel_left a hd]
+    simp only [Int.le_refl, if_true, this]
+    rw [if_neg (by omega)]
+    exact Int.le_refl 0
+  · split <;> omega
+
+theorem rndNat_exact (a d : Nat) (hd : 0 < d) (h : a < 2 ^ 53) : (rndNat (a * d) d).trunc = (a : Int) := by
+  unfold rndNat
+  by_cases h0 : a * d = 0
+  · have : a = 0 := by
+      rcases Nat.mul_eq_zero.mp h0 with h | h
+      · exact h
+      · omega
+    subst this; simp [Dy.trunc]
+  · rw [if_neg h0]
+    have hs := shiftFor_nonneg a d hd h
+    simp only [hs, if_true]
+    unfold rndUp Dy.trunc
+    simp only
+    have e : a * d * 2 ^ (shiftFor (a * d) d).toNat = (a * 2 ^ (shiftFor (a * d) d).toNat) * d := by
+      rw [Nat.mul_assoc, Nat.mul_comm d, ← Nat.mul_assoc]
+    rw [e, rne_mul _ _ hd]
+    have hp : 0 < 2 ^ (shiftFor (a * d) d).toNat := Nat.pow_pos (by decide)
+    rw [Int.tdiv_eq_ediv_of_nonneg (by exact Int.natCast_nonneg _)]
+    rw [Int.natCast_mul, Int.mul_ediv_cancel _ (by omega)]
+
+theorem rnd_exact (z : Int) (d : Nat) (hd : 0 < d) (h : z.natAbs < 2 ^ 53) : (rnd (z * d) d).trunc = z := by
+  unfold rnd
+  have e : (z * (d : Int)).natAbs = z.natAbs * d := by rw [Int.natAbs_mul]; simp
+  rw [e]
+  split
+  · rename_i hneg
+    have hz : z < 0 := by
+      by_cases h' : z < 0
+      · exact h'
+      · exfalso
+        have : 0 ≤ z * (d : Int) := Int.mul_nonneg (by omega) (Int.natCast_nonneg d)
+        omega
+    unfold Dy.neg Dy.trunc
+    simp only
+    have := rndNat_exact z.natAbs d hd h
+    unfold Dy.trunc at this
+    rw [Int.neg_tdiv, this]; omega
+  · rename_i hnn
+    have hz : 0 ≤ z := by
+      by_cases h' : z < 0
+      · exfalso
+        have : z * (d : Int) < 0 := Int.mul_neg_of_neg_of_pos h' (by omega)
+        omega
+      · omega
+    rw [rndNat_exact z.natAbs d hd h]; omega
+
+/-- `int(timedelta.total_seconds())` is exact for whole seconds -/
+theorem totalSeconds_whole (s : Int) (h : s.natAbs < 2 ^ 53) : (totalSeconds (s * 1000000)).trunc = s := by
+  unfold totalSeconds
+  exact rnd_exact s 1000000 (by decide) h
+
+end Cel.Time
